@@ -253,7 +253,7 @@ static void do_commit(char *p) {
   errno = 0; ret = hwloc_distances_add_commit(topo, handle, flags); err = errno;
   handle = NULL;                        /* committed, or destroyed on error */
   cands_refresh();                      /* grouping may have inserted objects */
-  chk = run_check();
+  chk = (flags & HWLOC_DISTANCES_ADD_FLAG_GROUP) ? run_check() : -1;    /* -1: not run, no grouping was requested */
   out("{\"e\":\"commit\",\"flags\":%lu,\"ret\":%d,\"errno\":\"%s\",\"check_ok\":%d,", flags, ret, ret < 0 ? errname(err) : "0", chk);
   out_obs(); out("}"); out_end();
 }
